@@ -96,6 +96,17 @@ func c17Validity(c *core.Ctx, s string) (validPattern bool) {
 		if (pn == nil) != (w == 1) {
 			c.Violation("C17/newmux-path:"+c17Shape(s), fmt.Sprintf("NewMux(%q) panic=%v but path validity is %v", s, pn, w == 1), map[string]interface{}{"s": s})
 		}
+		// Mount and Route accept exactly valid paths, too (the empty path needs a child with a path of its own)
+		if s != "" {
+			pn = try(func() { res.NewMux("").Mount(s, res.NewMux("")) })
+			if (pn == nil) != (w == 1) {
+				c.Violation("C17/mount-path:"+c17Shape(s), fmt.Sprintf("Mount(%q, ...) panic=%v but path validity is %v", s, pn, w == 1), map[string]interface{}{"s": s})
+			}
+			pn = try(func() { res.NewMux("svc").Route(s, func(m *res.Mux) { m.Handle("x") }) })
+			if (pn == nil) != (w == 1) {
+				c.Violation("C17/route-path:"+c17Shape(s), fmt.Sprintf("Route(%q, ...) panic=%v but path validity is %v", s, pn, w == 1), map[string]interface{}{"s": s})
+			}
+		}
 	}
 	// RID
 	if g, w := res.IsValidRID(s), ref.ValidRID(s); g != w {
